@@ -172,6 +172,18 @@ func isPkgSel(e ast.Expr, pkg string, names ...string) (string, bool) {
 }
 
 func (rw *rewriter) call(c *ast.CallExpr) {
+	if rw.rules["redisnew"] {
+		// redis.NewClient(opts) -> the package-level variable verifRedisNewClient (declared in the
+		// package's harness export file, initially redis.NewClient): the world can give the client
+		// the station builds for itself a dialer into the simulated network
+		if _, ok := isPkgSel(c.Fun, "redis", "NewClient"); ok {
+			rw.edits = append(rw.edits, &edit{rw.off(c.Fun.Pos()), rw.off(c.Fun.End()), func() string {
+				return "(func() func(*redis.Options) *redis.Client { " + hookName + ".Touch(); return verifRedisNewClient })()"
+			}})
+			rw.counts["redisnew"]++
+			return
+		}
+	}
 	if rw.rules["net"] {
 		if n, ok := isPkgSel(c.Fun, rw.netName, "Dial", "DialTimeout", "ResolveIPAddr", "LookupIP", "LookupHost"); ok {
 			rw.edits = append(rw.edits, &edit{rw.off(c.Fun.Pos()), rw.off(c.Fun.End()), func() string { return hookName + "." + n }})
